@@ -495,6 +495,28 @@ void harness (void)
     VF_ASSERT (data_cleared == 1 && cnp[0]->refs == 1 && cdp[0]->link_in_connection_list == 0, "the bus's per-connection data and its reference are released once");
 #undef l0
   }
+#elif OP == 12
+  {
+    /* C18: a monitor sees every message the bus originates, deliverable or not — the error reply for a failed call is captured for the monitors even when
+     * the caller has already gone away (its copy is then dropped, the monitors' copies are not). */
+    DBusError e; dbus_bool_t ok; static DBusList mn0; int s0 = 0, s1 = 0, caller_connected = vf_bool ();
+    mn0.data = cnp[1]; mn0.next = mn0.prev = &mn0; conns.monitors = &mn0; conns.monitor_matchmaker = (BusMatchmaker *) &tok_mon_mm;
+    mon_select[0] = 0; mon_select[1] = 1; mon_select[2] = 0;
+    cnp[0]->connected = caller_connected;
+    e.name = DBUS_ERROR_SERVICE_UNKNOWN; e.message = "x"; msg.sender = cname[0];
+    tr = bus_transaction_new ((BusContext *) &conns); VF_ASSUME (tr != 0);
+    ok = bus_transaction_send_error_reply (tr, cnp[0], &e, &msg);
+    VF_ASSERT (ok, "queuing the error reply succeeds when memory is available");
+    bus_transaction_execute_and_free (tr);
+    for (i = 0; i < NSENT; i++) if (i < n_sent) { if (sent[i].conn == 1) s1++; else if (sent[i].conn == 0) s0++; if (policy_allows_driver_msg) VF_ASSERT (sent[i].m->type == DBUS_MESSAGE_TYPE_ERROR && sent[i].m->reply_serial == msg.serial, "only the error is sent"); }
+    if (policy_allows_driver_msg)
+      {
+        VF_ASSERT (s1 == 1, "the monitor gets exactly one copy of the bus's error reply, whether or not the caller is still there");
+        VF_ASSERT (s0 == (caller_connected ? 1 : 0) && n_sent == s0 + s1, "the caller gets it only while connected, nobody else gets anything");
+        if (!caller_connected) VF_WITNESS_OPT ("error for a vanished caller still shown to the monitor");
+      }
+    else VF_ASSERT (s1 >= 1 && s0 == 0, "a policy-refused driver message is still shown to the monitor (followed by the refusal) and not delivered");
+  }
 #elif OP == 4
   {
     /* C05 (error replies) / C03.d: bus_transaction_send_error_reply through the real send path */
